@@ -383,3 +383,52 @@ def api_defaults(ctx):
     from .common_defaults import defaults as run
     n = run(ctx, [('wallets:Wallet.select_inputs', 'min_confirms', '1'), ('wallets:Wallet.transaction_create', 'min_confirms', '1'), ('wallets:Wallet.send', 'min_confirms', '1'), ('wallets:Wallet.send_to', 'min_confirms', '1'), ('wallets:Wallet.sweep', 'min_confirms', '1'), ('wallets:Wallet.transaction_create', 'replace_by_fee', 'False')], 'unconfirmed outputs are spent by default')
     ctx.floor(n, 5, 'parameter defaults')
+
+
+@PROP.obligation('C07.options-forwarded', canaries=[
+    mut.Canary('re-created transaction selects inputs with the default min_confirms', W, lambda tree: _drop_positional(tree, 'send', 'transaction_create', 1, 7)),
+])
+def options_forwarded(ctx):
+    """Wallet.send creates the transaction with the caller's options and - when the fee estimate was more than 10% off - creates it AGAIN;
+    send_to delegates to send. Every call binds every parameter the caller and the callee share by name (min_confirms, max_utxos,
+    input_key_id, account_id, network, locktime, number_of_change_outputs, random_output_order, replace_by_fee ...): a re-created
+    transaction must not fall back to defaults the first one did not use."""
+    m = ctx.repo.mod(W)
+    n = 0
+    for caller, callee in (('send', 'transaction_create'), ('send_to', 'send')):
+        f, g = m.functions['Wallet.' + caller], m.functions['Wallet.' + callee]
+        ps = [a.arg for a in f.args.args][1:]
+        gps = [a.arg for a in g.args.args][1:]
+        calls = [c for c in ast.walk(f) if isinstance(c, ast.Call) and norm(c.func) == 'self.' + callee]
+        if not calls:
+            ctx.undecided('Wallet.%s: call of %s not found' % (caller, callee))
+        for c in calls:
+            n += 1
+            bound = {gps[i] for i, a in enumerate(c.args) if i < len(gps)} | {k.arg for k in c.keywords if k.arg}
+            dropped = [p for p in ps if p in gps and p not in bound]
+            ctx.saw('Wallet.%s line %d -> %s: %d parameters bound, shared but not passed: %s' % (caller, c.lineno, callee, len(bound), dropped))
+            for p in dropped:
+                ctx.violate('%s:Wallet.%s' % (W, caller), '`self.%s(...)` at line %d does not pass on `%s`: the callee uses its default' % (callee, c.lineno, p), c,
+                            'send(..., min_confirms=6) with an automatic fee: when the transaction is re-created for the exact fee its inputs are selected with min_confirms=1 - outputs the caller excluded are spent')
+            # positional arguments land on the parameter of their own name
+            for i, a in enumerate(c.args):
+                if isinstance(a, ast.Name) and i < len(gps) and a.id in gps and gps[i] != a.id and a.id in ps:
+                    ctx.violate('%s:Wallet.%s' % (W, caller), '`%s` is passed in the position of `%s`' % (a.id, gps[i]), c, 'an option of the caller is applied as another option')
+    ctx.floor(n, 3, 'delegating calls')
+
+
+def _drop_positional(tree, caller, callee, nth_call, pos):
+    k = 0
+    for f in ast.walk(tree):
+        if isinstance(f, ast.FunctionDef) and f.name == caller:
+            for c in ast.walk(f):
+                if isinstance(c, ast.Call) and isinstance(c.func, ast.Attribute) and c.func.attr == callee:
+                    if k == nth_call and len(c.args) > pos:
+                        # turn the arguments after `pos` into keywords of the callee (resolved by the caller of this helper through names)
+                        names = ['output_arr', 'input_arr', 'input_key_id', 'account_id', 'network', 'fee', 'min_confirms', 'max_utxos', 'locktime', 'number_of_change_outputs', 'random_output_order', 'replace_by_fee']
+                        rest = c.args[pos:]
+                        c.keywords += [ast.keyword(arg=names[pos + j], value=v) for j, v in enumerate(rest)][1:]
+                        del c.args[pos - 0:]
+                        return True
+                    k += 1
+    return False
